@@ -343,32 +343,22 @@ congruence<Number>::operator/(const congruence<Number> &o) const {
   else if (this->is_top() || o.is_top())
     return congruence<Number>::top();
   else {
+    // Signed division truncates, so the classical rules for
+    // congruences (which assume an exact or Euclidean division) only
+    // hold when no rounding takes place.
+    if (m_a == 0 && o.m_a == 0) {
+      return congruence<Number>(m_b / o.m_b);
+    }
     /*
        aZ+b / 0Z+b':
-          if b'|a then  (a/b')Z + b/b'
-          else          top
+          if b'|a and b'|b then  (a/b')Z + b/b'  (every division is exact)
+          else                   top
     */
     if (o.m_a == 0) {
-      if (m_a % o.m_b == 0)
+      if (m_a % o.m_b == 0 && m_b % o.m_b == 0)
         return congruence<Number>(m_a / o.m_b, m_b / o.m_b);
       else
         return congruence<Number>::top();
-    }
-
-    /*
-         0Z+b / a'Z+b':
-            if N>0   (b div N)Z + 0
-            else     0Z + 0
-
-           where N = a'((b-b') div a') + b'
-    */
-    if (m_a == 0) {
-      Number n(o.m_a * (((m_b - o.m_b) / o.m_a) + o.m_b));
-      if (n > 0) {
-        return congruence<Number>(m_b / n, Number(0));
-      } else {
-        return congruence<Number>(Number(0), Number(0));
-      }
     }
 
     /*
@@ -389,39 +379,12 @@ congruence<Number>::operator%(const congruence<Number> &o) const {
   else if (this->is_top() || o.is_top())
     return congruence<Number>::top();
   else {
-    /*
-         aZ+b mod 0Z+b':
-             if b'|a then  (a/b')Z + b/b'
-             else          top
-    */
-    if (o.m_a == 0) {
-      if (m_a % o.m_b == 0) {
-        return congruence<Number>(Number(0), m_b % o.m_b);
-      } else {
-        return congruence<Number>(gcd(m_a, o.m_b), m_b);
-      }
+    if (m_a == 0 && o.m_a == 0) {
+      return congruence<Number>(m_b % o.m_b);
     }
-    /*
-          0Z+b mod a'Z+b':
-           if N<=0           then 0Z+b
-           if (b div N) == 1 then gcd(b',a')Z + b
-           if (b div N) >= 2 then N(b div N)Z  + b
-
-         where N = a'((b-b') div a') + b'
-    */
-    if (m_a == 0) {
-      Number n(o.m_a * (((m_b - o.m_b) / o.m_a) + o.m_b));
-      if (n <= 0) {
-        return congruence<Number>(m_a, m_b);
-      } else if (m_b == n) {
-        return congruence<Number>(gcd(o.m_b, o.m_a), m_b);
-      } else if ((m_b / n) >= 2) {
-        return congruence<Number>(m_b, m_b);
-      } else {
-        CRAB_ERROR("unreachable");
-      }
-    }
-
+    // x % y = x - y*q. If x = b (mod a) and y = b' (mod a') then y*q is
+    // a multiple of gcd(a',b') and the remainder (whatever its sign)
+    // is congruent to b modulo gcd(a,a',b').
     /*
       general case: no singleton
     */
